@@ -146,3 +146,26 @@ def c12_recover(ctx, kind, form):
     ad.find_balance(src, dst, mode="diagonal")
     ad.find_balance(src, dst, mode=kind)
     ctx.ensure("staged (diagonal, then this mode) adaptive balance also maps sources onto destinations", bool(np.max(np.abs(ad.apply_balance(src) - dst)) < 2e-3))
+
+
+@ob("C12.fresh_state", cases=product_cases(first=MODES, second=MODES), mods=MODS, funcs=FUNCS, stubs=FREE, samples=(1, 2), tol=1e-5, budget={"timeout_ms": 20000},
+    cite="applying the accumulated balance equals applying the stage balances one after the other (for every balance object, whatever was fitted before in the process)",
+    note="two balance objects in one process: the second starts from the identity, fitting it leaves the first untouched")
+def c12_fresh_state(ctx, first, second):
+    ctx.minimize_calls = []
+    src = ctx.array("src", (2, 3), sample=(0.0, 1.0))
+    dst = ctx.array("dst", (2, 3), sample=(0.0, 1.0))
+    x = ctx.array("x", (2, 3), sample=(0.0, 1.0))
+    A1 = darsia.AdaptiveBalance()
+    with stubs.record_minimize(ctx):
+        A1.find_balance(src, dst, mode=first)
+    a1, b1 = stage_map(first, ctx.minimize_calls[0]["x"])
+    A2 = darsia.AdaptiveBalance()
+    ctx.ensure("a newly constructed adaptive balance is the identity", eq(A2.apply_balance(x), x))
+    for cls in (cb.AffineBalance, cb.ColorBalance, cb.WhiteBalance):
+        ctx.ensure(f"a newly constructed {cls.__name__} is the identity", eq(cls().apply_balance(x), x))
+    with stubs.record_minimize(ctx):
+        A2.find_balance(src, dst, mode=second)
+    a2, b2 = stage_map(second, ctx.minimize_calls[1]["x"])
+    ctx.ensure("second object: accumulated balance == its own single stage", eq(A2.apply_balance(x), x @ a2 + b2))
+    ctx.ensure("first object unchanged by fitting the second", eq(A1.apply_balance(x), x @ a1 + b1))
